@@ -9,7 +9,7 @@ def showUnenc : Except Unenc.DErr (Nat × Bytes) → String
   | .error .length => "err:unencLength"
 
 /-- one step of `c03.session`: `e:<salt>:<sid>:<msg_id>:<seq_no>:<padding>:<body>` (sealed by the
-specification's server), `u:<msg_id>:<body>`, or `c:<code>` (the 4-byte frame of a signed transport error
+specification's server), `u:<msg_id>:<body>`, `r:<packet>` (these bytes as the frame's content), or `c:<code>` (the 4-byte frame of a signed transport error
 code); the answer is that of `c03.route` / `c03.uroute` — the model of the receive path keeps nothing
 between two frames -/
 def sessionStep1 (key : Bytes) (t : String) : Option String :=
@@ -24,6 +24,10 @@ def sessionStep1 (key : Bytes) (t : String) : Option String :=
     | some c =>
       if c < -2147483648 ∨ 2147483647 < c then none
       else some (showRouted (route prims key (leBytes (ofSigned 32 c) 4)))
+    | none => none
+  | ["r", pkt] =>
+    match parseTok? pkt with
+    | some pkt => if pkt.length < 8 then none else some (showRouted (route prims key pkt))
     | none => none
   | "u" :: mid :: body =>
     match mid.toNat?, parseTok? (":".intercalate body) with
